@@ -66,9 +66,12 @@ def main():
         r = sh(f"git -C {a.wt} apply {patch}")
         if r.returncode:
             # written against an earlier /repo HEAD (before later fix: commits): confirm it there
-            sh(f"git -C {a.wt} checkout -q --detach 465838f")
-            meta["repo_head"] = "465838f"
-            r = sh(f"git -C {a.wt} apply {patch}")
+            for base in ("c8743b4", "465838f"):
+                sh(f"git -C {a.wt} checkout -q --detach {base}")
+                meta["repo_head"] = base
+                r = sh(f"git -C {a.wt} apply {patch}")
+                if not r.returncode:
+                    break
         if r.returncode:
             print(sid, "patch does not apply", r.stderr); sh(f"git -C {a.wt} checkout -q --detach {head}"); continue
         try:
